@@ -1,6 +1,6 @@
 (* C04 - Results stay in the search window and are well-formed for arbitrary data. *)
 From Coq Require Import ZArith List.
-From BF Require Import Base.Util Model.Eval Model.Upsample Proofs.EvalP Proofs.UpsampleP.
+From BF Require Import Base.Util Model.Eval Model.Upsample Model.UpsampleFlag Proofs.EvalP Proofs.UpsampleP Proofs.UpsampleFlagP.
 Open Scope Z_scope.
 
 (* the integer centre lies in [peak - crop_size, peak + crop_size - 1] on both axes, for any peak (also outside the frame) *)
@@ -60,6 +60,25 @@ Theorem C04_upsampled_region_contains_position : forall u, 1 <= u ->
   0 <= us_dftshift u < us_region u /\ us_delta u (us_dftshift u) = 0.
 Proof. exact upsample_contains_position. Qed.
 Print Assumptions C04_upsampled_region_contains_position.
+
+(* the `upsample` parameter: the flag True stands for the factor 20 and always runs the DFT upsampling step; an integer k runs it iff k > 1;
+   whenever the step runs the bound above applies with that factor (for True: 0.775 px) *)
+Theorem C04_flag_true_runs_upsampling : forall k, us_runs (us_factor true k) = true.
+Proof. exact us_flag_true_runs. Qed.
+Print Assumptions C04_flag_true_runs_upsampling.
+
+Theorem C04_integer_factor_runs_iff_gt_1 : forall k, us_runs (us_factor false k) = (1 <? k).
+Proof. exact us_flag_int_runs. Qed.
+Print Assumptions C04_integer_factor_runs_iff_gt_1.
+
+Theorem C04_upsampled_within_bound_whenever_the_step_runs : forall is_true k j, us_runs (us_factor is_true k) = true ->
+  0 <= j < us_region (us_factor is_true k) -> 4 * Z.abs (us_delta (us_factor is_true k) j) <= 3 * us_factor is_true k + 2.
+Proof. exact us_bound_when_runs. Qed.
+Print Assumptions C04_upsampled_within_bound_whenever_the_step_runs.
+
+Theorem C04_flag_true_bound : forall k j, 0 <= j < us_region (us_factor true k) -> 4 * Z.abs (us_delta (us_factor true k) j) <= 62.
+Proof. exact us_flag_true_bound. Qed.
+Print Assumptions C04_flag_true_bound.
 
 (* ---- non-vacuity: a map whose first maximum is in the interior has a refinement neighbourhood of radius 2 (1 <= clip_r is satisfiable) ---- *)
 Example nv_interior_maximum :
